@@ -26,8 +26,11 @@ def findings_tables():
             "| property | class id | where | what fails | Lean witness |", "|---|---|---|---|---|"]
     for e in F:
         if e.get("status") == "open":
+            what = e.get("what_fails", "")
+            if e.get("why_not_repaired"):
+                what += " — *not repaired:* " + e["why_not_repaired"]
             out.append("| %s | `%s` | %s | %s | %s |" % (
-                e["property"], e["id"], esc(e.get("where", "")), esc(e.get("what_fails", "")),
+                e["property"], e["id"], esc(e.get("where", "")), esc(what),
                 ("`%s`" % e["lean_witness"].split(".")[-1]) if e.get("lean_witness") else "–"))
     return "\n".join(out)
 
